@@ -657,7 +657,8 @@ func runC04(c *Ctx) {
 		R.Ob(c.siteKey(site, "dataResult is a fresh buffered channel"), c.P.InstrPos(site), describe(v) == "makechan(1)", "dataResult assigned "+describe(v))
 	}
 
-	ruleNoPartialLine(c) // one reply per command LINE: the buffered beginning of an over-long line is never dispatched (it would be answered, and the line again with the closing 500)
+	ruleAuthReadFailureEnds(c) // a failed read inside AUTH is answered once, by the command loop: a reply from the handler as well makes two
+	ruleNoPartialLine(c)       // one reply per command LINE: the buffered beginning of an over-long line is never dispatched (it would be answered, and the line again with the closing 500)
 	rulePositiveAfterCallback(c)
 	R.Rule("R-bdat-chunk-never-commands", "E2 path counting", "a BDAT command gets its one reply and nothing else: every path through handleBdat that knows the size consumes the chunk, so its octets are never answered as commands of their own", 1)
 	if bi := bdatAnchors(c); bi != nil && bi.parse != nil {
